@@ -51,10 +51,11 @@ class Interp:
         if mr is not None:
             args["max_read"] = mr
         with lib_guard(self.case):
-            if cfg["how"] == "Recorder":
-                self.reader = auditok.Recorder(inp, **args, **kw)
-            else:
-                self.reader = auditok.AudioReader(inp, record=cfg["how"] == "record", **args, **kw)
+            with c10.stdin_as(kw.pop("_stdin", None)):
+                if cfg["how"] == "Recorder":
+                    self.reader = auditok.Recorder(inp, **args, **kw)
+                else:
+                    self.reader = auditok.AudioReader(inp, record=cfg["how"] == "record", **args, **kw)
             self.B, self.H = c10.sizes(cfg, self.reader, self.case())
             self.reader.open()
         self.skip = self.H == 0
@@ -81,11 +82,7 @@ class Interp:
             self.reader.close()
         except Exception:  # noqa: BLE001
             pass
-        for p in self.paths:
-            try:
-                os.remove(p)
-            except OSError:
-                pass
+        c10.cleanup(self.paths)
 
     def consumed(self):
         if self.k == 0:
@@ -189,7 +186,7 @@ def config(draw, maxN=50):
         ch=draw(st.integers(1, 2)), N=N, B=B, H=draw(st.one_of(st.none(), st.integers(1, B))),
         fb=draw(st.sampled_from([0, 0, 0.5, 0.75])), fh=0,
         mr=draw(st.one_of(st.none(), st.tuples(st.integers(0, N + 5), st.just(0)).map(list))),
-        kind=draw(st.sampled_from(["bytes", "bytes", "raw_lazy", "wav_lazy", "buffer"])),
+        kind=draw(st.sampled_from(["bytes", "bytes", "raw_lazy", "wav_lazy", "buffer", "stdin", "stdin_pipe"])),
         how=draw(st.sampled_from(["record", "Recorder", "record", "Recorder", "plain"])),
         salt=draw(st.integers(0, 10**6)),
         prepos=draw(st.sampled_from([0, 0, 3, 7])),
